@@ -194,6 +194,36 @@ def run(ctx, chk):
                f"{[a[:60] for a in sorted(hi_need - hi_args)]}", gb.module.path)
     else:
         chk.undecided("C10.bounds", "get_space_bounds does not return a (low, high) pair")
+    # the extremes range over *all* hosts only if the stream of host values each of them consumes
+    # is complete: a one-shot iterator (map / filter / zip / generator expression) bound to a
+    # name and consumed twice gives its second consumer nothing
+    from .shapes import exhausted_iterators
+    sc = repo.cls("nasim.scenarios.scenario", "Scenario")
+    todo, seen_f = [gb] + [sc.methods[n] for n in ("host_value_bounds",
+                                                    "host_discovery_value_bounds")
+                           if n in sc.methods], set()
+    import ast as _ast
+    nfun = 0
+    while todo:
+        f_ = todo.pop()
+        if f_.fq in seen_f:
+            continue
+        seen_f.add(f_.fq)
+        nfun += 1
+        for name, bind, second in exhausted_iterators(f_.node):
+            chk.ob("C10.bounds", f"{f_.qualname}: every extreme is taken over the complete "
+                   "sequence of host values", False,
+                   f"`{name}` is a one-shot iterator (`{_ast.unparse(bind.value)[:60]}`) and is "
+                   f"consumed again at line {second.lineno}: the second consumer sees an exhausted "
+                   "stream, so that extreme is not over all hosts", f"{f_.module.path}:"
+                   f"{second.lineno}", firm=True)
+        for n_ in _ast.walk(f_.node):
+            if isinstance(n_, _ast.Call) and isinstance(n_.func, _ast.Attribute) \
+                    and isinstance(n_.func.value, _ast.Name) and n_.func.value.id == "self" \
+                    and f_.cls is not None and n_.func.attr in f_.cls.methods:
+                todo.append(f_.cls.methods[n_.func.attr])
+    chk.ob("C10.bounds", "no one-shot iterator of host values is consumed twice in the bounds "
+           "computation", True, f"{nfun} function(s) examined", gb.module.path, nontrivial=False)
     # ------------------------------------------------------------------ guards
     for cls, sampled in GYM_FACTS.items():
         ci = repo.cls(ACT_MOD, cls)
